@@ -35,7 +35,7 @@ Working rules (important):
 - Work ONLY in your own scratch git worktree. Create it with:  git -C /repo worktree add /tmp/wt_{pid}_{n} HEAD   (then cd /tmp/wt_{pid}_{n}). Never edit /repo itself, never look at or touch /verif, never commit anything.
 - Every shell command needs:  export GOFLAGS=-mod=mod GOPROXY=off GOSUMDB=off GOTOOLCHAIN=local   (the sandbox is offline; go 1.23 is installed).
 - The change must be small (a few lines), look like a plausible refactoring slip / optimisation / off-by-one / reordering, and must need something SPECIFIC to manifest: a particular goroutine interleaving, a multi-step sequence of calls, an unusual boundary input, a particular size/option combination, or two cooperating sites that each look fine alone. Do NOT pick something ordinary use exposes at once (the existing tests must keep passing!). Prefer a single instance (one curve or field package, e.g. bn254, bls12-381 or koalabear) — editing the generated .go file directly is fine; do not touch code generators or test files.
-- Confirm yourself: (1) `go build ./...` succeeds in the worktree; (2) `go test -count=1 <the packages you touched and packages that import them directly>` passes with your change (run at least the touched package's full tests; note exactly which commands you ran and their result); (3) your demonstration fails WITH the change and passes WITHOUT it (use `git stash` / `git diff` to switch).
+- Confirm yourself: (1) `go build ./...` succeeds in the worktree; (2) `go test -count=1 <the packages you touched and packages that import them directly>` passes with your change (run at least the touched package's full tests; note exactly which commands you ran and their result); (3) your demonstration fails WITH the change and passes WITHOUT it (to switch, save `git diff > /tmp/seed_{pid}_{n}/patch.diff`, then `git apply -R` / `git apply` it; do NOT use `git stash` — the stash is shared with the main repository).
 - The demonstration is a Go test file or small main program placed OUTSIDE the library's existing test files (e.g. a new file zz_seed_demo_test.go in the package with a test whose name contains "Seed", or a main package under /tmp/wt_{pid}_{n}/zz_demo/). If it needs a particular schedule, make it deterministic enough to fail reliably (e.g. loop many times, GOMAXPROCS; runtime.Gosched injection points are NOT allowed in the library change itself).
 - Deliverables, written to /tmp/seed_{pid}_{n}/ (create it): patch.diff (output of `git diff` for the library change ONLY, without the demo file), the demo file(s), and notes.md explaining: what the change is, why it breaks the property, what it needs in order to manifest, the exact commands you ran and what they printed (tests passing with the change, demo failing with / passing without).
 - When finished, remove your worktree:  git -C /repo worktree remove --force /tmp/wt_{pid}_{n}   (keep /tmp/seed_{pid}_{n}).
